@@ -1,6 +1,6 @@
 (* Case runner for C18: decodes harness cases, runs the models, judges the implementation. *)
 From PV Require Export U_C18Pack.
-From PV Require Import M_Dot S_Dot S_DotClass.
+From PV Require Import M_Dot S_Dot S_DotClass M_Callgrind S_Callgrind.
 Open Scope string_scope.
 Open Scope Z_scope.
 
@@ -81,6 +81,29 @@ Definition dot_text_eqv (m o : string) : bool :=
   let m' := mask m in let o' := mask o in
   String.eqb m' o' || perm_eqb (lines m') (lines o').
 
+(* ---------------- callgrind cases ---------------- *)
+Definition cgedge_of (t : term) : cgedge :=
+  {| ce_file := gs (gn t 0); ce_name := gs (gn t 1); ce_addr := gz (gn t 2); ce_line := gz (gn t 3); ce_cost := gz (gn t 4) |}.
+Definition cgnode_of (t : term) : cgnode :=
+  {| cn_obj := gs (gn t 0); cn_file := gs (gn t 1); cn_name := gs (gn t 2); cn_addr := gz (gn t 3); cn_line := gz (gn t 4);
+     cn_cost := gz (gn t 5); cn_out := map cgedge_of (gl (gn t 6)) |}.
+Definition cg_nodes_of (i : term) : list cgnode := map cgnode_of (gl (gn i 4)).
+(* The node order (and with it the [k/n] suffixes of disambiguated names) is not a function of the
+   profile when nodes of a call tree share their NodeInfo (C08's F19): the graph extracted by the
+   harness and the graph printCallgrind built may then differ.  Such cases are compared loosely:
+   the text must still read (every reference defined, every line well-formed). *)
+Definition same_info (a b : cgnode) : bool :=
+  String.eqb (cn_obj a) (cn_obj b) && String.eqb (cn_file a) (cn_file b) && String.eqb (cn_name a) (cn_name b) &&
+  (cn_addr a =? cn_addr b) && (cn_line a =? cn_line b).
+Fixpoint has_dup (ns : list cgnode) : bool :=
+  match ns with [] => false | n :: r => existsb (same_info n) r || has_dup r end.
+Definition cg_nondet (i : term) : bool := gb (gn i 3) || has_dup (map cgnode_of (gl (gn i 4))).
+Definition callgrind_reads (text : string) : bool :=
+  match parse_text text with
+  | Some ls => match decode ls with Some _ => true | None => false end
+  | None => false
+  end.
+
 (* ---------------- the runner ---------------- *)
 Definition op_of (i : term) : string := gs (gn i 0).
 
@@ -88,12 +111,14 @@ Definition run_C18 (i : term) : term :=
   let op := op_of i in
   if String.eqb op "esc" then TS (escape_for_dot (gs (gn i 1)))
   else if String.eqb op "dot" then TS (compose_dot (dgraph_of (gn i 1)))
+  else if String.eqb op "cg" then TS (print_callgrind (gs (gn i 1)) (gs (gn i 2)) (cg_nodes_of i))
   else TL [TS "unknown-op"].
 
 Definition eqv_C18 (i m o : term) : bool :=
   let op := op_of i in
   if String.eqb op "dot" then
     match m, o with TS a, TS b => dot_text_eqv a b | _, _ => false end
+  else if String.eqb op "cg" then cg_nondet i || term_eqb m o
   else term_eqb m o.
 
 Definition spec_C18 (i o : term) : bool :=
@@ -102,6 +127,11 @@ Definition spec_C18 (i o : term) : bool :=
     match o with TS e => escapes_to (gs (gn i 1)) e | _ => false end
   else if String.eqb op "dot" then
     match o with TS text => dot_valid text | _ => false end
+  else if String.eqb op "cg" then
+    match o with
+    | TS text => if cg_nondet i then callgrind_reads text else callgrind_ok (cg_nodes_of i) text
+    | _ => false
+    end
   else true.
 
 Definition cls_C18 (i : term) : list Z :=
@@ -109,6 +139,11 @@ Definition cls_C18 (i : term) : list Z :=
   if String.eqb op "dot" then
     let g := dgraph_of (gn i 1) in
     ((if in_F25 g then [25] else []) ++ (if in_F26 g then [26] else []))%list
+  else if String.eqb op "cg" then
+    let ns := cg_nodes_of i in
+    ((if cg_nondet i then [900] else []) ++
+     (if in_F11 ns then [11] else []) ++
+     (if names_ok (gs (gn i 1)) (gs (gn i 2)) ns then [] else [20]))%list
   else [].
 
 Definition judge_C18 := judge_all run_C18 eqv_C18 spec_C18 cls_C18 0%Z.
